@@ -396,7 +396,34 @@ func (i *interpreter) mathPow(x, y value) value {
 			return math.NaN()
 		}
 		if i.decide(c.Or(a.Inf, b.Inf)) {
-			i.unsupported("math.Pow with infinite operand")
+			// the special cases documented for math.Pow (the sign of an infinity is the sign of V)
+			mone := c.RealI(-1)
+			if i.decide(b.Inf) {
+				posY := i.decide(c.Lt(z, b.V))
+				if i.decide(a.Inf) {
+					if posY {
+						return math.Inf(1)
+					}
+					return float64(0)
+				}
+				if i.decide(c.Or(c.Eq(a.V, one), c.Eq(a.V, mone))) {
+					return float64(1) // Pow(±1, ±Inf) = 1
+				}
+				if i.decide(c.Or(c.Lt(one, a.V), c.Lt(a.V, mone))) == posY {
+					return math.Inf(1) // |x|>1, y=+Inf or |x|<1, y=-Inf
+				}
+				return float64(0)
+			}
+			if i.decide(c.Lt(z, a.V)) { // Pow(+Inf, y)
+				if i.decide(c.Eq(b.V, z)) {
+					return float64(1)
+				}
+				if i.decide(c.Lt(z, b.V)) {
+					return math.Inf(1)
+				}
+				return float64(0)
+			}
+			i.unsupported("math.Pow with base -Inf")
 		}
 		if i.decide(c.Eq(a.V, z)) {
 			if i.decide(c.Lt(b.V, z)) {
